@@ -401,6 +401,10 @@ void MEDDLY::node_headers::recycleNodeHandle(node_handle p)
     a_unused[i] = pp;
     a_lowest_index = MIN(a_lowest_index, i);
 
+#ifdef MEDDLY_VERIF
+    if (the_verif_tracer) the_verif_tracer->recycleHandle(parent.FID(), p);
+#endif
+
     // if this was the last node, collapse nodes into the
     // "not yet allocated" pile.  But, we don't remove them
     // from the free list(s); we simply discard any too-large
